@@ -331,6 +331,17 @@ type vgLookaheadCapture struct {
 
 func VH_C02_LookaheadCapture() { vhC01[vgLookaheadCapture](vhNoElide) }
 
+// a capture around a group that contains a repetition: the values of a failed
+// iteration must not reach the capture
+type vgCapRep struct {
+	Name string   `@( A ( B A )* )`
+	Star bool     `( B @C )?`
+	L    []string `@( A ( B C )+ )?`
+	T    []string `( B @B )*`
+}
+
+func VH_C02_CapRep() { vhC01[vgCapRep](vhNoElide) }
+
 func VH_C02_Canary() { VH_C01_Canary() }
 
 func VH_C06_Seq()      { vhC06[vgSeq](vhNoElide) }
